@@ -21,9 +21,11 @@ PROPS = {
     },
     "C12": {
         "timeouts_not_mine": True,
-        "groups": [{"name": "render", "quick": 3000, "thorough": 80000}],
+        "lean_modules": ["Props.C20b"],
+        "groups": [{"name": "render", "quick": 3000, "thorough": 80000}, {"name": "mediaL", "quick": 600, "thorough": 20000, "workers": 12}],
         "rule": "documents from grammars of HTML (inline styles, links, media, blockquotes, lists, headings, pre, hr, unknown tags, character-reference and raw control-character injections), Markdown, gemtext and plain text with URLs x sequences of 1..4 widths (-3..250); "
-                "every link / image / frame gets a unique label text and target from the generator; predicates on the implementation's output: the superscript number printed after a label opens (links[k-1]) that label's own target, and the numbers 1..N are all shown; non-trivial = the document has links; distinct by op content",
+                "every link / image / frame gets a unique label text and target from the generator; predicates on the implementation's output: the superscript number printed after a label opens (links[k-1]) that label's own target, and the numbers 1..N are all shown; non-trivial = the document has links; distinct by op content; "
+                "mediaL group: posts and actors with body links and attachment / icon / image lists, histories of SelectLink(k) for k in -1..6 (and Media, ProfilePic, Banner) on the real items, targets compared with the Link model",
         "trusted": ["x/net/html and goldmark (forest shipped with the op)", LIBS["regexp"]],
         "assumptions": ["adjacent numbers without any text between them (two empty anchors in a row) are visually ambiguous; the property is stated on the numbers as emitted (ghost labels), see DESIGN.md"],
     },
@@ -57,8 +59,9 @@ PROPS = {
         "shrink_budget": 3,
     },
     "C07": {
+        "lean_modules": ["Props.Facts07"],
         "groups": [{"name": "C07", "quick": 400, "thorough": 12000, "workers": 16}],
-        "rule": "worlds over the TLS simulator: a thread of 1..8 notes (plain-text bodies containing URLs of other objects, so numbered links can be opened), a paged reply collection under the leaf (incl. an empty first page, comments answering another post, a missing collection), two actors on different hosts, multi-author posts (a foreign-host author turns the post into an error item), a paged outbox of 0..13 activities (some by another actor), an empty collection, a 404; started with Subcommand(open, <start>) and driven by 3..27 key tokens: j k g h l space c r a o p b, numbers followed by . / Enter / Esc / Backspace / another key (0, over-long numbers), :open <url>, :feed, bogus commands, arbitrary bytes; "
+        "rule": "worlds over the TLS simulator: a thread of 1..8 notes (plain-text bodies containing URLs of other objects, so numbered links can be opened), a paged reply collection under the leaf (incl. an empty first page, comments answering another post, a missing collection), two actors on different hosts, multi-author posts (a foreign-host author turns the post into an error item), a paged outbox of 0..13 activities (some by another actor), an empty collection, a 404; started with Subcommand(open, <start>) and driven by 3..27 key tokens: j k g h l space c r a o p b, numbers followed by . / Enter / Esc / Backspace / another key (0, over-long numbers), :open <url>, :feed, bogus commands, arbitrary bytes, terminal resizes between keys and in the middle of typing (often one dimension only); "
                 "after every token (once loads have settled, detected through the shim) compared: mode, buffer, highlighted item, the window of items around the cursor, presence of frontier/children, base point; non-trivial = at least three tokens; distinct by op content",
         "trusted": ["crypto/tls, net; the Go scheduler (the check waits for quiescence; interleavings are C08's subject)",
                     "url/json oracle tables as in C02; GetMarkup's link list for every body as an oracle table (numbering itself is C12)",
@@ -181,10 +184,12 @@ PROPS = {
         "assumptions": ["Config.Safe is the only configuration hypothesis used by the panic-freedom theorems of C06/C07/C20"],
     },
     "C20": {
-        "lean_modules": ["Props.Facts19"],
-        "groups": [{"name": "C20", "quick": 600, "thorough": 20000, "workers": 12}],
+        "lean_modules": ["Props.Facts19", "Props.C20b"],
+        "groups": [{"name": "C20", "quick": 600, "thorough": 20000, "workers": 12},
+                   {"name": "media", "quick": 600, "thorough": 20000, "workers": 12}],
         "rule": "hooks of 1..5 arguments drawn from exact placeholders, embedded/near placeholders, dashes and empty strings, with the program itself sometimes named like a placeholder; links with spaces, quotes, shell metacharacters, leading dashes, newlines, placeholder look-alikes; "
-                "the real ui.openExternally runs a dump program that records argv and stdin; non-trivial = at least one argument after the program; distinct by op content",
+                "the real ui.openExternally runs a dump program that records argv and stdin; non-trivial = at least one argument after the program; distinct by op content; "
+                "media group: posts and actors built from documents with url / attachment / icon / image link lists (typed, untyped, malformed, shorthand strings) x histories of 3..9 openings (Media, SelectLink k, ProfilePic, Banner, one of them repeated) through the real selection code and the real openExternally; non-trivial = something was selected",
         "trusted": ["os/exec passes argv unchanged and never involves a shell (generated fact: exec.Command(command[0], command[1:]...))"],
         "assumptions": ["the hook is non-empty (Config.Safe, C19)"],
     },
